@@ -84,6 +84,17 @@ def run(tier, seed):
         for s in pool[:(6 if quick else 14)]:
             n += 1
             cases_by[c10.OPS.index(p["prog"][0]["op"])].append(dict(id=n, shapes=[p["leaf"]], prog=p["prog"], variant="cuda" if n % 3 else "opencl", bs=s["bs"], grid=s["grid"], sched=s["sched"]))
+    # depth-3 view types in every tier: f3(f2(f1(a))) over {negative, square, add b, subtract b} (the program binaries stop at depth 2 in the quick tier)
+    import itertools
+    bshape = [3]; bdata = [2, 1, 3]
+    def c3step(o): return dict(op=o, shapes=[[]] if o in ("negative", "square") else [[], bshape], args=dict(none=True), **({} if o in ("negative", "square") else dict(data=[[], bdata])))
+    chains = list(itertools.product(("negative", "square", "add", "subtract"), repeat=3))
+    ck.rng.shuffle(chains)
+    for ops in chains[:(24 if quick else 64)]:
+        pool = canonical_schedules(6, ck.rng); ck.rng.shuffle(pool)
+        for s_ in pool[:(3 if quick else 8)]:
+            n += 1
+            cases_by[0].append(dict(id=n, shapes=[[2, 3]], prog=[c3step(o) for o in ops], chain3=dict(bshape=bshape, bdata=bdata), variant="cuda" if n % 2 else "opencl", bs=s_["bs"], grid=s_["grid"], sched=s_["sched"]))
     total = 0; drift = 0
     for i, cases in cases_by.items():
         if not cases: continue
